@@ -73,6 +73,9 @@ package internals
 //@ spec wfexec(x) = x != nil && x.Errors != nil && x.Fmter != nil && (istype(x.Errors, *ErrsList) || istype(x.Errors, *ErrsMap)) && zrep(x.Errors)
 //@ spec wfctx(c) = c != nil && wfexec(c.ExecCtx) && c.Path != nil
 //@ spec clean(c) = !c.CanCatch && !c.Exit
+// Footprint of recording an issue in the execution x: the ghost log, the container's representation and the
+// message of issues (set by formatters).
+//@ spec recfp(x) = locs(L(x.Errors), when(istype(x.Errors, *ErrsList), x.Errors.(*ErrsList).List), when(istype(x.Errors, *ErrsMap), x.Errors.(*ErrsMap).M), anyelems(Ptr), mapsof(ZogIssueMap), anyfield(ZogIssue, Message))
 
 // Abstract rendered path of a PathBuilder (ghost sequence; see PathBuilder contracts).
 //@ smt (declare-sort PathSeq 0)
@@ -103,7 +106,7 @@ package internals
 //@ functype TFunc(self, val, ctx)
 //@   requires[C12] ctx_is_schemactx: istype(ctx, *SchemaCtx) && wfctx(ctx.(*SchemaCtx))
 //@   requires[C12,C01] test_set: ctx.(*SchemaCtx).Test != nil
-//@   modifies ctx.(*SchemaCtx).Exit, LC(ctx.(*SchemaCtx)), tf_ran
+//@   modifies ctx.(*SchemaCtx).Exit, recfp(ctx.(*SchemaCtx).ExecCtx), tf_ran
 //@   ghost_update tf_ran := tf_ran + 1
 //@   ensures[C01,C02,C05] outcome: tfunc_pass(ctx.(*SchemaCtx)) || tfunc_fail(ctx.(*SchemaCtx), val)
 //@   ensures zrep(ctx.(*SchemaCtx).ExecCtx.Errors)
@@ -127,7 +130,7 @@ package internals
 //@ iface Ctx.AddIssue(self, e)
 //@   requires (istype(self, *SchemaCtx) && wfctx(self.(*SchemaCtx))) || (istype(self, *ExecCtx) && wfexec(self.(*ExecCtx)))
 //@   requires e != nil
-//@   modifies when(istype(self, *SchemaCtx), self.(*SchemaCtx).Exit), L(ctxexec(self).Errors), e.Message
+//@   modifies when(istype(self, *SchemaCtx), self.(*SchemaCtx).Exit), recfp(ctxexec(self))
 //@   ensures istype(self, *SchemaCtx) && old(self.(*SchemaCtx).CanCatch) ==> self.(*SchemaCtx).Exit && unchanged(L(ctxexec(self).Errors))
 //@   ensures istype(self, *SchemaCtx) && !old(self.(*SchemaCtx).CanCatch) ==> unchanged(self.(*SchemaCtx).Exit)
 //@   ensures !(istype(self, *SchemaCtx) && old(self.(*SchemaCtx).CanCatch)) ==> L(ctxexec(self).Errors) == push(old(L(ctxexec(self).Errors)), e)
@@ -170,7 +173,7 @@ package internals
 
 //@ func (*ExecCtx).AddIssue(c, e)
 //@   requires wfexec(c) && e != nil
-//@   modifies e.Message, L(c.Errors), when(istype(c.Errors, *ErrsList), c.Errors.(*ErrsList).List), when(istype(c.Errors, *ErrsMap), c.Errors.(*ErrsMap).M), anyelems(Ptr), mapsof(ZogIssueMap)
+//@   modifies recfp(c)
 //@   ensures[C02] logged: L(c.Errors) == push(old(L(c.Errors)), e)
 //@   ensures[C11] msg_kept: old(e.Message) != "" ==> e.Message == old(e.Message)
 //@   ensures[C02] rep: zrep(c.Errors)
@@ -194,7 +197,7 @@ package internals
 
 //@ func (*SchemaCtx).AddIssue(c, e)
 //@   requires wfctx(c) && e != nil
-//@   modifies c.Exit, e.Message, LC(c), when(istype(c.ExecCtx.Errors, *ErrsList), c.ExecCtx.Errors.(*ErrsList).List), when(istype(c.ExecCtx.Errors, *ErrsMap), c.ExecCtx.Errors.(*ErrsMap).M), anyelems(Ptr), mapsof(ZogIssueMap)
+//@   modifies c.Exit, recfp(c.ExecCtx)
 //@   ensures[C05,C01] swallow: old(c.CanCatch) ==> c.Exit && unchanged(LC(c))
 //@   ensures[C02,C05] record: !old(c.CanCatch) ==> unchanged(c.Exit) && LC(c) == push(old(LC(c)), e)
 //@   ensures[C11] msg_kept: old(e.Message) != "" ==> e.Message == old(e.Message)
@@ -278,9 +281,24 @@ package internals
 //@ func TestFuncFromBool$1(val, ctx)
 //@   captures[C17] fn_set: fn != nil
 //@   implements functype TFunc
-//@   modifies ctx.(*SchemaCtx).Exit, LC(ctx.(*SchemaCtx)), when(istype(ctx.(*SchemaCtx).ExecCtx.Errors, *ErrsList), ctx.(*SchemaCtx).ExecCtx.Errors.(*ErrsList).List), when(istype(ctx.(*SchemaCtx).ExecCtx.Errors, *ErrsMap), ctx.(*SchemaCtx).ExecCtx.Errors.(*ErrsMap).M), anyelems(Ptr), mapsof(ZogIssueMap), keyof(String)
+//@   modifies ctx.(*SchemaCtx).Exit, recfp(ctx.(*SchemaCtx).ExecCtx), tf_ran
 
 //@ func TestNotFuncFromBool$1(val, ctx)
 //@   captures[C17] fn_set: fn != nil
 //@   implements functype TFunc
-//@   modifies ctx.(*SchemaCtx).Exit, LC(ctx.(*SchemaCtx)), when(istype(ctx.(*SchemaCtx).ExecCtx.Errors, *ErrsList), ctx.(*SchemaCtx).ExecCtx.Errors.(*ErrsList).List), when(istype(ctx.(*SchemaCtx).ExecCtx.Errors, *ErrsMap), ctx.(*SchemaCtx).ExecCtx.Errors.(*ErrsMap).M), anyelems(Ptr), mapsof(ZogIssueMap), keyof(String)
+//@   modifies ctx.(*SchemaCtx).Exit, recfp(ctx.(*SchemaCtx).ExecCtx), tf_ran
+
+// ---- absence predicates (C04)
+
+// Validate mode: absent iff the Go zero value.
+//@ spec gozero(x) = x == nil || ifzero(x)
+//@ func IsZeroValue(x)
+//@   pure
+//@   ensures[C04] zero_def: result == gozero(x)
+
+// Parse mode: absent iff nil or a string that is empty after trimming whitespace.
+//@ spec parsezero(val) = val == nil || (istype(val, string) && trimspace(val.(string)) == "")
+//@ func IsParseZeroValue(val, ctx)
+//@   pure
+//@   ensures[C04] parse_zero_def: result == parsezero(val)
+//@   define bverdict(self, val) == parsezero(val)
